@@ -58,10 +58,13 @@ type StepPlan struct {
 type Plan struct {
 	Pre   []Act      `json:"pre,omitempty"` // before the subject context is created
 	Steps []StepPlan `json:"steps,omitempty"`
+	// Reuse: the subject is a context object that already evaluated this program unseeded; it is then given
+	// the seed bytes and initialised again ("whatever earlier unseeded evaluations did")
+	Reuse string `json:"reuse,omitempty"`
 }
 
 func (p Plan) empty() bool {
-	if len(p.Pre) > 0 {
+	if len(p.Pre) > 0 || p.Reuse != "" {
 		return false
 	}
 	for _, s := range p.Steps {
@@ -74,7 +77,7 @@ func (p Plan) empty() bool {
 
 type Step struct {
 	Src   string   `json:"src"`
-	API   string   `json:"api,omitempty"`   // "" Run | parse (Parse + RunAfterParsed) | expr (RunExpr) | exprLocal (RunExpr sharing variables)
+	API   string   `json:"api,omitempty"`   // "" Run | parse (Parse + RunAfterParsed) | parse2 (… evaluated twice) | expr (RunExpr) | exprLocal (RunExpr sharing variables)
 	Kinds []string `json:"kinds,omitempty"` // randomness constructs and the paths they sit on (from the AST; part of failure signatures)
 }
 
@@ -87,6 +90,10 @@ type Case struct {
 	NoRandom bool    `json:"noRandom,omitempty"`
 	// MustDraw: every step is known to roll at least one die in random mode (enumerated table only)
 	MustDraw bool `json:"mustDraw,omitempty"`
+	// Host: an expression the host application exposes to scripts in two ways: the global name 全局值 is a
+	// computed value with this expression (GlobalValueLoadFunc), and the native function 宿主掷() evaluates it
+	// with RunExpr on the context it is called from
+	Host string `json:"host,omitempty"`
 }
 
 const meterCeiling = 3_000_000
@@ -100,6 +107,7 @@ type world struct {
 	curSrc  string
 	ran     int // acts executed
 	global  int // acts that drew from a process-wide generator
+	inside  int // acts executed inside a run of the subject (between two instructions or dice)
 }
 
 func (w *world) runVM(vm *ds.Context, src string) {
@@ -196,6 +204,7 @@ func (in *injector) yield() {
 	defer func() { in.busy = false }()
 	for _, a := range acts {
 		in.w.do(a)
+		in.w.inside++
 	}
 }
 
@@ -235,8 +244,47 @@ func diff(a, b StepOut) (field, av, bv string) {
 
 type stEvent struct{ Type, Name, Val, Extra, Op, Detail string }
 
-func newSubject(cfg vmx.Cfg, log *[]stEvent) *ds.Context {
+func hostHooks(vm *ds.Context, expr string) {
+	if expr == "" {
+		return
+	}
+	computed := ds.NewComputedVal(expr)
+	native := ds.NewNativeFunctionVal(&ds.NativeFunctionData{Name: "宿主掷", Params: []string{},
+		NativeFunc: func(ctx *ds.Context, this *ds.VMValue, params []*ds.VMValue) *ds.VMValue {
+			v, err := ctx.RunExpr(expr, false)
+			if err != nil {
+				ctx.Error = err
+				return nil
+			}
+			return v
+		}})
+	vm.GlobalValueLoadFunc = func(name string) *ds.VMValue {
+		switch name {
+		case "全局值":
+			return computed
+		case "宿主掷":
+			return native
+		}
+		return nil
+	}
+}
+
+func newSubject(cfg vmx.Cfg, log *[]stEvent, reuse string, host string) *ds.Context {
 	vm := cfg.NewVM()
+	if reuse != "" {
+		u := cfg
+		u.SeedHex = ""
+		vm = u.NewVM()
+		func() {
+			defer func() { _ = recover() }()
+			ds.VerifMeterReset(meterCeiling)
+			defer ds.VerifMeterReset(0)
+			_ = vm.Run(reuse)
+		}()
+		vm.Seed, _ = hex.DecodeString(cfg.SeedHex)
+		vm.Init()
+		cfg.Apply(vm)
+	}
 	vm.Config.CallbackSt = func(_type string, name string, val *ds.VMValue, extra *ds.VMValue, op string, detail string) {
 		ev := stEvent{Type: _type, Name: name, Val: vmx.Repr(val), Op: op, Detail: detail}
 		if extra != nil {
@@ -244,6 +292,7 @@ func newSubject(cfg vmx.Cfg, log *[]stEvent) *ds.Context {
 		}
 		*log = append(*log, ev)
 	}
+	hostHooks(vm, host)
 	return vm
 }
 
@@ -278,14 +327,20 @@ func runStep(vm *ds.Context, st Step, log *[]stEvent, w *world, sp StepPlan, pro
 			if err = vm.Parse(st.Src); err == nil {
 				err = vm.RunAfterParsed()
 			}
-		case "expr":
-			// RunExpr hands back whatever ctx.Error holds afterwards, including the error of an earlier failed Run
-			// when its own expression evaluates fine; that plumbing is not this property's subject, so the host clears it.
+		case "parse2": // the compiled program evaluated twice: the second evaluation continues the sequence
+			if err = vm.Parse(st.Src); err == nil {
+				if err = vm.RunAfterParsed(); err == nil {
+					err = vm.RunAfterParsed()
+				}
+			}
+		case "expr", "exprLocal":
+			// RunExpr continues the error and budget state of the previous Run (it is meant to be called while a
+			// command is being processed): it hands back a stale ctx.Error when its own expression evaluates fine
+			// and starts from the NumOpCount the last Run ended with.  That plumbing is not this property's
+			// subject, so the host starts it from a clean slate.
 			vm.Error = nil
-			val, err = vm.RunExpr(st.Src, false)
-		case "exprLocal":
-			vm.Error = nil
-			val, err = vm.RunExpr(st.Src, true)
+			vm.NumOpCount = 0
+			val, err = vm.RunExpr(st.Src, st.API == "exprLocal")
 		default:
 			err = vm.Run(st.Src)
 		}
@@ -327,6 +382,7 @@ type runRes struct {
 	vm     *ds.Context
 	ran    int
 	global int
+	inside int
 	seed0  string // generator state right after Init
 }
 
@@ -337,8 +393,12 @@ func runHistory(c Case, plan Plan, probe bool, upto int) runRes {
 		w.do(a)
 	}
 	var log []stEvent
-	vm := newSubject(c.Cfg, &log)
+	vm := newSubject(c.Cfg, &log, plan.Reuse, c.Host)
 	w.subject = vm
+	if plan.Reuse != "" {
+		w.ran++
+		w.global++
+	}
 	res := runRes{vm: vm, seed0: vmx.SeedHex(vm)}
 	for i := 0; i < upto && i < len(c.Steps); i++ {
 		var sp StepPlan
@@ -351,7 +411,7 @@ func runHistory(c Case, plan Plan, probe bool, upto int) runRes {
 		}
 		res.outs = append(res.outs, runStep(vm, c.Steps[i], &log, w, sp, k))
 	}
-	res.ran, res.global = w.ran, w.global
+	res.ran, res.global, res.inside = w.ran, w.global, w.inside
 	return res
 }
 
@@ -451,15 +511,17 @@ func clip(s string, n int) string {
 }
 
 type verdict struct {
-	f        *rt.Failure
-	discard  string
-	clean    runRes
-	actsRan  int
-	globRan  int
-	draws    int
-	rolled   bool
-	resumed  int
-	stepErrs int
+	f         *rt.Failure
+	discard   string
+	clean     runRes
+	actsRan   int
+	globRan   int
+	inside    int
+	draws     int
+	rolled    bool
+	resumed   int
+	stepErrs  int
+	farStates int
 }
 
 func compareRuns(c Case, s *rt.Section, oracle, what string, got, want []StepOut, offset int) *rt.Failure {
@@ -530,33 +592,32 @@ func judge(c Case, s *rt.Section) (v verdict) {
 	prev := clean.seed0
 	v.draws = 0
 	for i, o := range clean.outs {
-		d := drawsBetween(prev, o.Seed, 200_000)
-		if d < 0 {
-			v.f = s.NewFailure("resume", "seed:off-sequence/"+kindsSig(c.Steps[i]), c,
-				fmt.Sprintf("step %d: generator state %s is not reached from %s within 200000 draws", i, o.Seed, prev),
-				"a state later in the sequence of the seeded generator")
-			return
-		}
-		if d > 0 {
+		moved := o.Seed != prev
+		if moved {
 			v.rolled = true
 		}
-		if c.NoRandom && d != 0 {
+		if c.NoRandom && moved {
 			v.f = s.NewFailure("noleak", "norandom:seed-moved", c,
-				fmt.Sprintf("step %d %q has no dice and no random method, yet GetCurSeed moved %s -> %s (%d draws)", i, clip(c.Steps[i].Src, 300), prev, o.Seed, d), "unchanged generator state")
+				fmt.Sprintf("step %d %q has no dice and no random method, yet GetCurSeed moved %s -> %s", i, clip(c.Steps[i].Src, 300), prev, o.Seed), "unchanged generator state")
 			return
 		}
-		if c.MustDraw && c.Cfg.Mode == "" && d == 0 && o.Err == "" && strings.TrimSpace(o.Rest) == "" {
+		if c.MustDraw && c.Cfg.Mode == "" && !moved && o.Err == "" && strings.TrimSpace(o.Rest) == "" {
 			v.f = s.NewFailure("own-generator", "mustdraw:seed-unmoved/"+kindsSig(c.Steps[i]), c,
 				fmt.Sprintf("step %d %q rolled (value %s, text %q) but the context's generator state did not move", i, clip(c.Steps[i].Src, 300), o.Ret, clip(o.Detail, 200)),
 				"randomness drawn from the context's generator")
 			return
 		}
-		v.draws += d
+		// statistics only: how many values were drawn (a state that is not reached within the bound is counted, not judged)
+		if d := drawsBetween(prev, o.Seed, 40_000); d >= 0 {
+			v.draws += d
+		} else {
+			v.farStates++
+		}
 		prev = o.Seed
 	}
 	// A: the same history under interference
 	a := runHistory(c, c.PlanA, false, n)
-	v.actsRan, v.globRan = a.ran, a.global
+	v.actsRan, v.globRan, v.inside = a.ran, a.global, a.inside
 	for _, o := range a.outs {
 		if o.ceiling {
 			v.discard = "work-ceiling"
@@ -592,7 +653,7 @@ func judge(c Case, s *rt.Section) (v verdict) {
 		cfg := c.Cfg
 		cfg.SeedHex = clean.outs[cut].Seed // what a host stored with GetCurSeed after step cut
 		var log []stEvent
-		r := newSubject(cfg, &log)
+		r := newSubject(cfg, &log, "", c.Host)
 		if got := vmx.SeedHex(r); got != cfg.SeedHex {
 			v.f = s.NewFailure("resume", "seed:init-roundtrip", c, "GetCurSeed right after Init = "+got, "the installed state "+cfg.SeedHex)
 			return
@@ -647,6 +708,9 @@ func drawPlan(t *rapid.T, nSteps int, dense bool) Plan {
 	var p Plan
 	for i := rapid.IntRange(0, 2).Draw(t, "nPre"); i > 0; i-- {
 		p.Pre = append(p.Pre, drawAct(t, false))
+	}
+	if rapid.IntRange(0, 7).Draw(t, "reuse") == 0 {
+		p.Reuse = rapid.SampledFrom(interferencePrograms[:len(interferencePrograms)-1]).Draw(t, "reuseSrc")
 	}
 	for s := 0; s < nSteps; s++ {
 		var sp StepPlan
@@ -739,7 +803,7 @@ func drawCase(t *rapid.T, s *rt.Section) Case {
 	c.NoRandom = rapid.IntRange(0, 9).Draw(t, "noRandom") == 0
 
 	o := gen.DefaultOpts()
-	o.MaxStmts = 4
+	o.MaxStmts = 3
 	o.MaxDepth = 3
 	o.SingleKeyDicts = true // nothing compared may depend on Go map order
 	o.ThisAssign = false    // open finding of C02 (this.x = v is dropped)
@@ -773,9 +837,17 @@ func drawCase(t *rapid.T, s *rt.Section) Case {
 			}
 			op := rapid.SampledFrom(ops).Draw(t, "tableOp")
 			pa := rapid.SampledFrom(paths).Draw(t, "tablePath")
+			if pa.Name == "host-global-computed" && i > 0 && s.Avoid("host_computed_cold_cache") {
+				// open finding C06-F01: the text of a host-supplied computed value differs between its first and its
+				// later evaluations, which a resume cut placed before a later use exposes
+				pa = pathByName("host-native-runexpr")
+			}
 			st = Step{Src: pa.wrap(op.Src), API: pa.API, Kinds: []string{"table", op.Name + "@" + pa.Name}}
 			if pa.DefSide && !op.Arr {
 				c.Cfg.DefSide = op.Src
+			}
+			if pa.Host {
+				c.Host = op.Src
 			}
 		} else {
 			p := g.Program()
@@ -789,6 +861,8 @@ func drawCase(t *rapid.T, s *rt.Section) Case {
 		switch rapid.IntRange(0, 11).Draw(t, "api") {
 		case 0:
 			st.API = "parse"
+		case 3:
+			st.API = "parse2"
 		case 1:
 			if !strings.HasPrefix(st.Src, "^st") {
 				st.API = "expr"
@@ -806,12 +880,6 @@ func drawCase(t *rapid.T, s *rt.Section) Case {
 	}
 	if n >= 2 {
 		c.Cuts = append(c.Cuts, rapid.IntRange(0, n-2).Draw(t, "cut"))
-		if n >= 3 && rapid.Bool().Draw(t, "cut2") {
-			c2 := rapid.IntRange(0, n-2).Draw(t, "cut2At")
-			if c2 != c.Cuts[0] {
-				c.Cuts = append(c.Cuts, c2)
-			}
-		}
 	}
 	return c
 }
@@ -847,37 +915,53 @@ type pathT struct {
 	Name, Tmpl string
 	API        string
 	DefSide    bool // the operator is the DefaultDiceSideExpr of the configuration; the program rolls default-sided dice
+	Host       bool // the operator is the expression behind the host's computed global / native function
 }
 
 func (p pathT) wrap(op string) string { return strings.ReplaceAll(p.Tmpl, "@", op) }
 
 var paths = []pathT{
-	{"top", "@", "", false},
-	{"arith", "1 + @ * 2", "", false},
-	{"assign", "x = @; x", "", false},
-	{"array", "[@, @]", "", false},
-	{"dict", "{'k': @}", "", false},
-	{"ternary", "1 ? @ : 0", "", false},
-	{"coalesce", "null ?? @", "", false},
-	{"call-arg", "toStr(@)", "", false},
-	{"func", "func g1() { @ }; g1()", "", false},
-	{"func-cached", "func g2(n) { return [n, @] }; [g2(1), g2(2)]", "", false},
-	{"func-nested", "func g3() { @ }; func g4() { [g3(), g3()] }; g4()", "", false},
-	{"computed", "&c1 = @; c1", "", false},
-	{"computed-twice", "&c1 = @; [c1, c1]", "", false},
-	{"computed-attr", "&c1 = [@, this.x ?? 0]; &c1.x = 1; c1", "", false},
-	{"func-in-computed", "func g1() { @ }; &c2 = g1(); c2", "", false},
-	{"computed-in-func", "&c3 = @; func g5() { c3 }; g5()", "", false},
-	{"tmpl-hole", "`a{@}b`", "", false},
-	{"tmpl-stmts", "`{% y = @; y %}`", "", false},
-	{"while", "i = 0; r = []; while i < 3 { i = i + 1; r.push(@) }; r", "", false},
-	{"if-body", "r = 0; if 1 { r = @ }; r", "", false},
-	{"st", "^st力量=@", "", false},
-	{"parse-api", "@", "parse", false},
-	{"runexpr-api", "@", "expr", false},
-	{"runexpr-local", "y = @", "exprLocal", false},
-	{"default-side", "2d", "", true},
-	{"default-side-func", "func g6() { d }; g6() + g6()", "", true},
+	{"top", "@", "", false, false},
+	{"arith", "1 + @ * 2", "", false, false},
+	{"assign", "x = @; x", "", false, false},
+	{"array", "[@, @]", "", false, false},
+	{"dict", "{'k': @}", "", false, false},
+	{"ternary", "1 ? @ : 0", "", false, false},
+	{"coalesce", "null ?? @", "", false, false},
+	{"call-arg", "toStr(@)", "", false, false},
+	{"func", "func g1() { @ }; g1()", "", false, false},
+	{"func-cached", "func g2(n) { return [n, @] }; [g2(1), g2(2)]", "", false, false},
+	{"func-nested", "func g3() { @ }; func g4() { [g3(), g3()] }; g4()", "", false, false},
+	{"computed", "&c1 = @; c1", "", false, false},
+	{"computed-twice", "&c1 = @; [c1, c1]", "", false, false},
+	{"computed-attr", "&c1 = [@, this.x ?? 0]; &c1.x = 1; c1", "", false, false},
+	{"func-in-computed", "func g1() { @ }; &c2 = g1(); c2", "", false, false},
+	{"computed-in-func", "&c3 = @; func g5() { c3 }; g5()", "", false, false},
+	{"tmpl-hole", "`a{@}b`", "", false, false},
+	{"tmpl-stmts", "`{% y = @; y %}`", "", false, false},
+	{"while", "i = 0; r = []; while i < 3 { i = i + 1; r.push(@) }; r", "", false, false},
+	{"if-body", "r = 0; if 1 { r = @ }; r", "", false, false},
+	{"st", "^st力量=@", "", false, false},
+	{"st-mod", "^st力量+@", "", false, false},
+	{"st-two", "^st力量=@ 敏捷=@", "", false, false},
+	{"host-global-computed", "[全局值, 全局值]", "", false, true},
+	{"host-native-runexpr", "[宿主掷(), 宿主掷()]", "", false, true},
+	{"host-native-in-func", "func g7() { 宿主掷() }; [g7(), g7()]", "", false, true},
+	{"parse-api", "@", "parse", false, false},
+	{"parse-twice-api", "@", "parse2", false, false},
+	{"runexpr-api", "@", "expr", false, false},
+	{"runexpr-local", "y = @", "exprLocal", false, false},
+	{"default-side", "2d", "", true, false},
+	{"default-side-func", "func g6() { d }; g6() + g6()", "", true, false},
+}
+
+func pathByName(name string) pathT {
+	for _, p := range paths {
+		if p.Name == name {
+			return p
+		}
+	}
+	return paths[0]
 }
 
 var enumSeeds = []string{"00000000000000000000000000000000", "000102030405060708090a0b0c0d0e0f"}
@@ -900,6 +984,9 @@ func enumCase(op operator, pa pathT, seed, mode string) Case {
 	src := pa.wrap(op.Src)
 	if pa.DefSide {
 		c.Cfg.DefSide = op.Src
+	}
+	if pa.Host {
+		c.Host = op.Src
 	}
 	c.Steps = []Step{
 		{Src: src, API: pa.API, Kinds: []string{op.Name + "@" + pa.Name}},
@@ -938,7 +1025,7 @@ func TestProp(t *testing.T) {
 			if run.Env.Thorough() {
 				modes = []string{"", "min", "max"}
 				seeds = append(append([]string(nil), seeds...), "ffffffffffffffffffffffffffffffff")
-				for i := 0; i < 13; i++ {
+				for i := 0; i < 7; i++ {
 					x := rt.Mix(run.Env.Seed + uint64(i)*7919)
 					y := rt.Mix(x)
 					seeds = append(seeds, fmt.Sprintf("%016x%016x", x, y))
@@ -948,12 +1035,15 @@ func TestProp(t *testing.T) {
 				seeds = append(append([]string(nil), seeds...), fmt.Sprintf("%016x%016x", x, rt.Mix(x)))
 			}
 			s.Exhaustive = true
-			s.Bounds = fmt.Sprintf("%d operators x %d paths x %d seeds x %d modes, one fixed interference plan (9 injection points per run)", len(operators), len(paths), len(seeds), len(modes))
+			s.Bounds = fmt.Sprintf("%d operators x %d paths x %d seeds in random mode (+ 2 seeds in each of %d fixed-roll modes), one fixed interference plan (9 injection points per run)", len(operators), len(paths), len(seeds), len(modes)-1)
 			idx := 0
 			for _, op := range operators {
 				for _, pa := range paths {
-					for _, seed := range seeds {
-						for _, mode := range modes {
+					for si, seed := range seeds {
+						for mi, mode := range modes {
+							if mi > 0 && si >= 2 {
+								continue // min/max mode never draws: two seeds are enough to show the history still agrees
+							}
 							idx++
 							if idx%run.Env.NShards != run.Env.Shard {
 								continue
@@ -962,7 +1052,7 @@ func TestProp(t *testing.T) {
 								s.Class("skipped:array-as-default-sides")
 								continue
 							}
-							if pa.Name == "st" && op.defaultSided() {
+							if strings.HasPrefix(pa.Name, "st") && op.defaultSided() {
 								s.Class("skipped:st-value-has-no-Nd-syntax") // ^st力量=d reads a variable named d
 								continue
 							}
@@ -993,7 +1083,7 @@ func TestProp(t *testing.T) {
 			}
 		})
 
-	run.Check("history", 14000, 260000,
+	run.Check("history", 8000, 100000,
 		"a history of 1..4 programs on one seeded context (generated programs dense in dice of every enabled family, random array methods, default-sided dice, dice in function/computed/template/loop bodies; or an operator x path table entry; run through Run, Parse+RunAfterParsed or RunExpr) x 16 seed bytes x configuration (families, mode, IgnoreDiv0, DefaultDiceSideExpr) x interference plans (unseeded VMs, other seeded VMs, VMs with the subject's own seed, Roll*/x-exp-rand/math-rand global draws, observers; before the context exists, between steps, and inside a run at chosen instruction/die-roll ticks) x resume cuts; oracles replay/noleak/resume; non-trivial = random mode, >= 2 draws from the context generator in the reference run and >= 1 interference act executed; distinct by (programs, seed)",
 		func(t *rapid.T, s *rt.Section) {
 			c := drawCase(t, s)
@@ -1007,13 +1097,16 @@ func TestProp(t *testing.T) {
 			var srcs []string
 			for _, st := range c.Steps {
 				srcs = append(srcs, st.API+":"+st.Src)
-				for _, k := range st.Kinds {
-					if !strings.Contains(k, "table") {
+				if len(st.Kinds) == 2 && st.Kinds[0] == "table" {
+					s.Class("table-step")
+					if op, pa, ok := strings.Cut(st.Kinds[1], "@"); ok {
+						s.Class("table-op:" + op)
+						s.Class("table-path:" + pa)
+					}
+				} else {
+					for _, k := range st.Kinds {
 						s.Class("has:" + k)
 					}
-				}
-				if len(st.Kinds) > 0 && st.Kinds[0] == "table" {
-					s.Class("table-step")
 				}
 				s.Class("api:" + apiName(st.API))
 			}
@@ -1022,8 +1115,16 @@ func TestProp(t *testing.T) {
 			s.Class("mode:" + c.Cfg.Mode)
 			s.Class(fmt.Sprintf("steps:%d", len(c.Steps)))
 			s.Class("acts-executed:" + bucket(v.actsRan))
+			s.Class("acts-inside-a-run:" + bucket(v.inside))
+			s.Class("acts-on-global-generators:" + bucket(v.globRan))
 			if v.resumed > 0 {
 				s.Class("resumed")
+			}
+			if c.PlanA.Reuse != "" || c.PlanB.Reuse != "" {
+				s.Class("context-object-reused-after-unseeded-run")
+			}
+			if v.farStates > 0 {
+				s.Class("draws:more-than-40000-in-a-step")
 			}
 			if v.stepErrs > 0 {
 				s.Class("has-error-step")
